@@ -175,7 +175,8 @@ class _SyncCache[**Args, Result]:
         **kwargs: Args.kwargs,
     ) -> Result:
         key: Hashable = _make_key(
-            args=(ref(__method_self), *args),
+            # identity is part of the key - equal but distinct instances must not share entries
+            args=(id(__method_self), ref(__method_self), *args),
             kwds=kwargs,
             typed=True,
         )
@@ -293,7 +294,8 @@ class _AsyncCache[**Args, Result]:
     ) -> Result:
         loop: AbstractEventLoop = get_running_loop()
         key: Hashable = _make_key(
-            args=(ref(__method_self), *args),
+            # identity is part of the key - equal but distinct instances must not share entries
+            args=(id(__method_self), ref(__method_self), *args),
             kwds=kwargs,
             typed=True,
         )
